@@ -188,12 +188,12 @@ def main():
         return res
     base = os.path.dirname(I.__file__)
     out["except_lists"] = {
-        "interpret": except_lists(os.path.join(base, "interpret.py"), ["execute", "load_history", "save_history", "execute_plot", "print_unit_info", "execute_interpreter_command", "run_interpreter"]),
+        "interpret": except_lists(os.path.join(base, "interpret.py"), ["execute", "load_history", "save_history", "execute_plot", "print_unit_info", "execute_interpreter_command", "run_interpreter", "readline_load_history"]),
         "eval": except_lists(os.path.join(base, "eval.py"), ["eval_parse_tree", "compose_units"]),
         "currency": except_lists(os.path.join(base, "currency.py"), ["load_currency_data"]),
         "types": except_lists(os.path.join(base, "types.py"), ["instant_from_iso"]),
         "tokens": except_lists(os.path.join(base, "tokens.py"), ["read_num_token"]),
-        "config": except_lists(os.path.join(base, "config.py"), ["read_config"]),
+        "config": except_lists(os.path.join(base, "config.py"), ["read_config", "read_config_file"]),
     }
     out["commands"] = [dict(names=list(n) if isinstance(n, tuple) else [n], nargs=c.nargs, impl=impl_key(c.f))
                        for n, c in I.INTERPRETER_COMMANDS]
